@@ -138,6 +138,14 @@ func DamageJSON(t *tape.Tape, data []byte) (out []byte, desc []string, kinds []s
 				desc = append(desc, fmt.Sprintf("%s := %q", a.path, v))
 				kinds = append(kinds, "json-string-replaced")
 			case float64:
+				if t.Bool("jd.num.small") {
+					// occurrence bounds, row counts, indices: the small values are the ones with a meaning of their own
+					v := []interface{}{int64(0), int64(1), int64(-1), int64(2)}[t.Intn("jd.num.smallv", 4)]
+					set(a, v)
+					desc = append(desc, fmt.Sprintf("%s := %v", a.path, v))
+					kinds = append(kinds, "json-number-replaced")
+					break
+				}
 				// boundary numbers; integers are stored as int64 so that they are written without an exponent
 				nums := []interface{}{int64(0), int64(-1), int64(1), int64(2), int64(3), int64(1) << 31, int64(1)<<31 - 1, int64(1) << 32,
 					int64(1) << 62, int64(9223372036854775807), int64(9223372036854775806), int64(-9223372036854775808), 0.5, 1e18,
